@@ -24,7 +24,14 @@ FEATS = {
     "P": {"pwd": True, "ip": False, "words": None, "asn": None},
     "A": {"pwd": False, "ip": True, "words": None, "asn": None},
     "PAWN": {"pwd": True, "ip": True, "words": WORDS, "asn": ASNS},
+    # undo of the address anonymization (needs the salt; excludes -a), alone and with each other feature
+    "U": {"pwd": False, "ip": False, "words": None, "asn": None, "undo": True},
+    "UP": {"pwd": True, "ip": False, "words": None, "asn": None, "undo": True},
+    "UW": {"pwd": False, "ip": False, "words": WORDS, "asn": None, "undo": True},
+    "UN": {"pwd": False, "ip": False, "words": None, "asn": ASNS, "undo": True},
+    "UPWN": {"pwd": True, "ip": False, "words": WORDS, "asn": ASNS, "undo": True},
 }
+UNDO_SETS = ["U", "UP", "UW", "UN", "UPWN"]
 DIRS = {0: "", 1: "sub dir", 2: "sub dir/nést/deep", 3: ".dotdir"}
 NAMES = {"a": "alpha.cfg", "b": "beta.txt", "sp": "my router.cfg", "uni": "röuter-中文.cfg", "dot": ".hidden.cfg"}
 NAME_ORDER = ["a", "b", "sp", "uni", "dot"]
@@ -151,9 +158,12 @@ def make_anonymizer(feat):
 
 def api_kwargs(feat):
     f = feat_opts(feat)
-    return dict(anon_pwd=f["pwd"], anon_ip=f["ip"], salt=SALT,
-                sensitive_words=list(f["words"]) if f["words"] else None,
-                as_numbers=list(f["asn"]) if f["asn"] else None, **f["hb"])
+    kw = dict(anon_pwd=f["pwd"], anon_ip=f["ip"], salt=SALT,
+              sensitive_words=list(f["words"]) if f["words"] else None,
+              as_numbers=list(f["asn"]) if f["asn"] else None, **f["hb"])
+    if f.get("undo"):
+        kw["undo_ip_anon"] = True
+    return kw
 
 
 def cli_args(feat, inp, outp):
@@ -163,6 +173,8 @@ def cli_args(feat, inp, outp):
         a.append("-p")
     if f["ip"]:
         a.append("-a")
+    if f.get("undo"):
+        a.append("-u")
     if f["words"]:
         a += ["-w", ",".join(f["words"])]
     if f["asn"]:
@@ -886,7 +898,7 @@ def run_hostbits(job, fsroot, repo):
         if os.path.exists(root):
             shutil.rmtree(root)
         os.makedirs(root)
-        if entry == "dir":
+        if entry in ("dir", "main", "cli"):
             files = ["r1.cfg", "sub dir/r2.cfg"]
             slots = None
             inp, outp = os.path.join(root, "in"), os.path.join(root, "out")
@@ -895,7 +907,7 @@ def run_hostbits(job, fsroot, repo):
             slots = {"r1.cfg": os.path.join("out", "named result.cfg")}
             os.makedirs(os.path.join(root, "out"))
             inp, outp = os.path.join(root, "in", "r1.cfg"), os.path.join(root, slots["r1.cfg"])
-        data = {r: hb_bytes(3 + j) for j, r in enumerate(files)}
+        data = {r: (hb_bytes(3 + j) if feat.startswith("HB:") else ok_bytes(3 + j, ["lf", "nonascii"][j % 2])) for j, r in enumerate(files)}
         for r in files:
             _write(os.path.join(root, "in", r), data[r])
         snap0 = snapshot(root)
